@@ -35,6 +35,17 @@ func checkTreeListing(b *sbx.Box, st gitfmt.Store, treeID string, depth int) err
 	if err != nil {
 		return fmt.Errorf("harness: tree %s: %v", treeID, err)
 	}
+	if depth > 40 && depth%97 != 0 {
+		// a very deep chain: the listing of every 97th level is compared, the levels between are only descended
+		for _, e := range es {
+			if e.IsDir() {
+				if err := checkTreeListing(b, st, e.ID, depth+1); err != nil {
+					return err
+				}
+			}
+		}
+		return nil
+	}
 	r := b.Run("cat-file", "-p", treeID)
 	if !r.OK() {
 		return fmt.Errorf("cat-file -p of tree %s failed: %s", treeID, r)
@@ -253,6 +264,14 @@ func genPathSet(rt *rapid.T, max int) []string {
 			set[p] = true
 		}
 	}
+	if v := rapid.IntRange(0, 99).Draw(rt, "veryDeep"); v == 57 || v == 58 { // (rapid favours the ends of a range: a middle value keeps this rare)
+		// a file beneath many hundred directories (one level of recursion per level in every tree walker)
+		d := []int{200, 999, 1000, 1001, 1002, 1500}[rapid.IntRange(0, 5).Draw(rt, "deepLevels")]
+		p := strings.Repeat("q/", d) + g.Component()
+		if !set["q"] {
+			set[p] = true
+		}
+	}
 	out := make([]string, 0, len(set))
 	for p := range set {
 		out = append(out, p)
@@ -364,7 +383,8 @@ func TestC05(t *testing.T) {
 		stats.LabelIf(space, "snapshot:space-in-name")
 		stats.LabelIf(fam, "snapshot:between-sibling-family")
 		stats.LabelIf(hostileID, "snapshot:id-with-00/20/0a-byte")
-		if err := runC05(c); err != nil {
+		err := runC05(c)
+		if err != nil {
 			findings.Save("C05", "c05", c, err)
 			rt.Fatalf("C05 violated: %v", err)
 		}
